@@ -416,7 +416,7 @@ def gen_boundary_pair(rng, canon, kind):
     jc69-p34   any composition, exactly 3/4 of the columns differ
     near-w3    tn93-w3 with ONE transversion column replaced by an identical one (just inside the valid region)"""
     A, C, G, T = canon
-    m = rng.choice([1, 1, 2, 4, 8])
+    m = rng.choice([1, 1, 2, 3, 4, 5, 8, 12])
     if kind == "uniform16":
         m = rng.choice([1, 2, 3, 4])
         cols = [(a, b) for a in canon for b in canon] * m
